@@ -66,19 +66,30 @@ def gen_diagram(rng):
     for _ in range(rng.randint(0, 3)):
         lines.append(rng.choice(NOISE_IN))
     rng.shuffle(lines)
+    # layout of a line: indentation, trailing blanks, runs of blanks / tabs between the tokens (the same diagram to any reader)
+    layout = rng.random() < 0.35
+    if layout:
+        def relayout(l):
+            toks = l.split(" ")
+            gap = lambda: rng.choice([" ", " ", "  ", "\t", " \t "])
+            body = toks[0] + "".join(gap() + t for t in toks[1:])
+            return rng.choice(["", "", "  ", "    ", "\t"]) + body + rng.choice(["", "", " ", "   ", "\t"])
+        lines = [relayout(l) if l not in NOISE_IN else l for l in lines]
     before = [rng.choice(NOISE_OUT) for _ in range(rng.randint(0, 2))]
     after = [rng.choice(NOISE_OUT) for _ in range(rng.randint(0, 2))]
-    sep = rng.choice(["\n", "\n", "\r\n"]) if False else "\n"
-    text = sep.join(before + ["@startuml"] + lines + ["@enduml"] + after) + rng.choice(["", "\n", "\n\n"])
+    text = "\n".join(before + ["@startuml"] + lines + ["@enduml"] + after) + rng.choice(["", "\n", "\n\n"])
     referenced = {x for e in rel for x in e}
     comps_expected = sorted(declared | referenced)
     return text, comps_expected, sorted(rel)
 
 
-def parse_impl(text, d, i):
+def parse_impl(text, d, i, eol="\n"):
+    """`text` uses \\n; the file is written with the given line ends (the parser reads it in text mode with universal newlines,
+    so the diagram is the same; the model is given `text`)."""
     from pytestarch.diagram_extension.diagram_parser import PumlParser
     p = Path(d) / f"d{i}.puml"
-    p.write_text(text)
+    with open(p, "w", encoding="utf-8", newline="") as fh:
+        fh.write(text.replace("\n", eol))
     try:
         r = PumlParser().parse(p)
         return ("OK", sorted(r.all_modules), sorted((a, b) for a, bs in r.dependencies.items() for b in bs))
@@ -107,10 +118,14 @@ def _job(args):
                 refs.append((body, None, None, r))
                 continue
             text, comps, rel = gen_diagram(rng)
-            r = parse_impl(text, d, i)
+            eol = rng.choice(["\n", "\n", "\n", "\r\n", "\r\n", "\r"])
+            out["stats"]["eol_" + {"\n": "lf", "\r\n": "crlf", "\r": "cr"}[eol]] = out["stats"].get("eol_" + {"\n": "lf", "\r\n": "crlf", "\r": "cr"}[eol], 0) + 1
+            if any(l != l.strip() or "\t" in l or "  " in l for l in text.split("\n")):
+                out["stats"]["with_indentation_or_blank_runs"] = out["stats"].get("with_indentation_or_blank_runs", 0) + 1
+            r = parse_impl(text, d, i, eol)
             out["n"] += 1
             if r[0] != "OK" or r[1] != comps or r[2] != rel:
-                case = dict(text=text, parsed=str(r)[:500], documented_components=comps, documented_relation=rel)
+                case = dict(text=text, line_ends=repr(eol), parsed=str(r)[:500], documented_components=comps, documented_relation=rel)
                 if r[0] == "OK":
                     case.update(components_surplus=sorted(set(r[1]) - set(comps)), components_missing=sorted(set(comps) - set(r[1])),
                                 arrows_surplus=sorted(set(r[2]) - set(rel)), arrows_missing=sorted(set(rel) - set(r[2])))
@@ -155,7 +170,8 @@ def replay(ctx: Ctx, path: str) -> int:
     c = r["case"]
     d = common.scratch_dir()
     try:
-        res = parse_impl(c["text"], d, 0)
+        import ast as _ast
+        res = parse_impl(c["text"], d, 0, _ast.literal_eval(c["line_ends"]) if "line_ends" in c else "\n")
         print(res)
         want = ("OK", c.get("documented_components"), [tuple(x) for x in c.get("documented_relation", [])]) if "documented_components" in c else ("ERR", "PumlParsingError")
         got = (res[0], res[1], res[2]) if res[0] == "OK" else res
